@@ -63,7 +63,9 @@ class OneBinding(Proxy):
 def scope_kinds():
     import supp.scope as S
     src = S.SourceScope.__new__(S.SourceScope)
+    src.nonlocals = EmptySet()
     cls = S.ClassScope.__new__(S.ClassScope)
+    cls.nonlocals = EmptySet()
     cls.parent = src
     meth = S.FuncScope.__new__(S.FuncScope)
     meth.parent = cls
@@ -74,6 +76,8 @@ def scope_kinds():
     lam = S.FuncScope.__new__(S.FuncScope)
     lam.parent = func
     lam.name = 'lambda'
+    for sc in (meth, func, inner, lam):
+        sc.nonlocals = NonlocalSet()
     return [('module', src), ('class', cls), ('method', meth), ('function', func), ('function-in-method', inner), ('lambda', lam)]
 
 
@@ -96,6 +100,23 @@ def binding_kinds(scope):
     return out
 
 
+NONLOCAL = z3.Bool('ident_declared_nonlocal_in_the_scope')
+
+
+class EmptySet(Proxy):
+    _pyclass = set
+
+    def __contains__(self, s):
+        return False
+
+
+class NonlocalSet(Proxy):
+    _pyclass = set
+
+    def __contains__(self, s):
+        return core.CUR.branch(NONLOCAL)
+
+
 def spec_report(kind_scope, scope, kind_name, obj, used, name, qi):
     """the exemption table of the property statement, transcribed.  Returns (condition, code, message-format)"""
     import supp.name as Nm
@@ -108,7 +129,8 @@ def spec_report(kind_scope, scope, kind_name, obj, used, name, qi):
         # W01: a local of a function or lambda ... that is not a parameter of a method
         param_of_method = isinstance(obj, Nm.ArgumentName) and kind_scope == 'method'
         star = is_import and obj.is_star
-        return z3.And(base, z3.BoolVal(not param_of_method and not star)), 'W01', 'Unused name: {}'
+        # a local of the function: a binding of a name declared nonlocal there rebinds the enclosing function's variable instead
+        return z3.And(base, z3.BoolVal(not param_of_method and not star), z3.Not(NONLOCAL)), 'W01', 'Unused name: {}'
     # module or class level: only imports
     if not is_import:
         return z3.BoolVal(False), None, None
@@ -143,6 +165,7 @@ REPLAY_CASES = [
     ('f = lambda a: 1\n', [('W01', 'Unused name: a')]),
     ('import os.path\nimport os\nos.path\n', []),
     ('def f():\n    def g(): pass\n    class C: pass\n', [('W01', 'Unused name: g'), ('W01', 'Unused name: C')]),
+    ('def g():\n    x = 1\n    def f():\n        nonlocal x\n        x = 2\n    return f, x\n', []),
 ]
 
 
